@@ -16,7 +16,7 @@ CHECKS = {
          "Not decided: safe programs outside the generated grammar; code using `unsafe`. Trusts rustc's borrow checker, trait solver and const evaluation."),
  "C05": ("Who may call the base allocator: one allocate and one deallocate site, never from unallocated constructors (R1); drop releases every chunk exactly once on every path, walks read links before freeing, into_raw suppresses the drop (R2); reset keeps exactly the last chunk (R3); release layout agrees with the request: same alignment atom, pointer chunk_start, size chunk_end-chunk_start, no header read after the release (R4); a failed chunk creation links nothing (R5).",
          "Not decided: 'released size >= requested size' as a number (arithmetic of C12); behaviour of a faulty base allocator."),
- "C14": ("Claim protocol: diverging already-claimed test, replace with the CLAIMED constant, reclaim of the claimant's current chunk on guard drop, guard not Clone and built in one place (R1); every classifier consumer separates Claimed from NonDummy and fallible ones return E::claimed() before any effect (R2); geometry of the four dummy headers read from the statics' MIR (capacity -16, self-contained, no links) and direction selection (R3); guard derefs to its claimant scope (R4).",
+ "C14": ("Claim protocol: diverging already-claimed test, replace with the CLAIMED constant, reclaim of the claimant's current chunk on guard drop, guard not Clone and built in one place (R1); every classifier consumer separates Claimed from NonDummy and fallible ones return E::claimed() before any effect (R2); geometry of the four dummy headers read from the statics' MIR (capacity -16, self-contained, no links) and direction selection (R3); guard derefs to its claimant scope (R4); a handle's refusal becomes E::allocation (abort under the panicking API) only after is_claimed() was false, else E::claimed (R5).",
          "Not decided: that is_last is false for the dummy position for every user pointer (provenance argument, not computed); numeric behaviour of the bump primitives on the dummy range (C11)."),
  "C15": ("Interface discipline of MutBumpVec/MutBumpVecRev/MutBumpString and the *_mut helpers incl. helper functions they reach: only prepare/statistics calls, commit only in finalisers, tabled fast-path exceptions (R1); no position write reachable from the prepare primitives except the lazy reset of a later chunk (R2); drop glue reaches no allocator method (R3); prepared commits and growth copies as affine normal forms relative to the prepared range, up/down x forward/reverse (R4).",
          "Not decided: the numbers (padding bounds), contents of the elements."),
